@@ -1015,6 +1015,41 @@ def flatten_function(index, fi, exclude=()):
     return clone
 
 
+# ---- enumerate idioms -------------------------------------------------------------------------------------------------------------
+def desugar_enumerate_idioms(index):
+    """`zip(itertools.count(), X)` / `zip(count(), X)` / `zip(range(len(X)), X)` pair every element of X with its position:
+    `enumerate(X)`.  (`count(k)` is `enumerate(X, k)`.)"""
+    done = {}
+
+    class T(ast.NodeTransformer):
+        def __init__(self):
+            self.n = 0
+
+        def visit_Call(self, node):
+            self.generic_visit(node)
+            if isinstance(node.func, ast.Name) and node.func.id == "zip" and len(node.args) == 2 and not node.keywords:
+                a, b = node.args
+                if isinstance(a, ast.Call) and ast.unparse(a.func) in ("itertools.count", "count") and len(a.args) <= 1 and not a.keywords:
+                    self.n += 1
+                    new = ast.Call(func=ast.Name(id="enumerate", ctx=ast.Load()), args=[b] + list(a.args), keywords=[])
+                    return ast.fix_missing_locations(ast.copy_location(new, node))
+                if isinstance(a, ast.Call) and isinstance(a.func, ast.Name) and a.func.id == "range" and len(a.args) == 1 and \
+                        isinstance(a.args[0], ast.Call) and isinstance(a.args[0].func, ast.Name) and a.args[0].func.id == "len" and \
+                        len(a.args[0].args) == 1 and ast.dump(a.args[0].args[0]) == ast.dump(b) and \
+                        isinstance(b, (ast.Name, ast.Attribute)):
+                    self.n += 1
+                    new = ast.Call(func=ast.Name(id="enumerate", ctx=ast.Load()), args=[b], keywords=[])
+                    return ast.fix_missing_locations(ast.copy_location(new, node))
+            return node
+
+    for f in index.all_functions():
+        t = T()
+        t.visit(f.node)
+        if t.n:
+            done[f.site] = t.n
+    return done
+
+
 # ---- yield from a comprehension -------------------------------------------------------------------------------------------------
 def desugar_yield_from(index):
     """`yield from (E for T in S if C)` (statement; generator expression or list comprehension over pure parts) is
